@@ -24,6 +24,8 @@ import (
 const rtSrc = `// Package verifrt is injected by the verification harness (build overlay).
 package verifrt
 
+import "runtime"
+
 // Hits records which instrumented statements were executed (statement coverage).
 var Hits [NPOINTS]uint8
 
@@ -33,7 +35,23 @@ var (
 	Steps  int64
 	Budget int64 = 1 << 62
 	Hook   func()
+	// BlockHook is called by the sync shims when the calling thread cannot proceed (lock held,
+	// Once running elsewhere, WaitGroup not at zero). The controlled scheduler switches to another
+	// thread; without a scheduler the shim yields the processor.
+	BlockHook func()
 )
+
+// Block is called in wait loops of the sync shims.
+func Block() {
+	if BlockHook != nil {
+		BlockHook()
+		return
+	}
+	gosched()
+}
+
+// gosched is runtime.Gosched (kept behind a variable so that this file needs no import group edits).
+var gosched = runtime.Gosched
 
 // BudgetExceeded is the sentinel panic value.
 type BudgetExceeded struct{}
@@ -54,11 +72,178 @@ func P(id int) {
 }
 `
 
+const vsyncSrc = `// Package vsync replaces package sync inside the instrumented build: the same API for the
+// primitives a codec library plausibly uses, with waiting made visible to the controlled scheduler.
+package vsync
+
+import (
+	realsync "sync"
+
+	"github.com/pion/rtcp/verifrt"
+)
+
+// Locker mirrors sync.Locker.
+type Locker interface {
+	Lock()
+	Unlock()
+}
+
+// Map is not a blocking primitive; the real one is used.
+type Map = realsync.Map
+
+// Mutex is a cooperative mutual exclusion lock.
+type Mutex struct{ locked bool }
+
+func (m *Mutex) Lock() {
+	verifrt.P(0)
+	for m.locked {
+		verifrt.Block()
+	}
+	m.locked = true
+}
+
+func (m *Mutex) TryLock() bool {
+	verifrt.P(0)
+	if m.locked {
+		return false
+	}
+	m.locked = true
+	return true
+}
+
+func (m *Mutex) Unlock() {
+	if !m.locked {
+		panic("sync: unlock of unlocked mutex")
+	}
+	m.locked = false
+	verifrt.P(0)
+}
+
+// RWMutex is a cooperative reader/writer lock.
+type RWMutex struct {
+	writer  bool
+	readers int
+}
+
+func (m *RWMutex) Lock() {
+	verifrt.P(0)
+	for m.writer || m.readers > 0 {
+		verifrt.Block()
+	}
+	m.writer = true
+}
+
+func (m *RWMutex) Unlock() {
+	if !m.writer {
+		panic("sync: Unlock of unlocked RWMutex")
+	}
+	m.writer = false
+	verifrt.P(0)
+}
+
+func (m *RWMutex) RLock() {
+	verifrt.P(0)
+	for m.writer {
+		verifrt.Block()
+	}
+	m.readers++
+}
+
+func (m *RWMutex) RUnlock() {
+	if m.readers <= 0 {
+		panic("sync: RUnlock of unlocked RWMutex")
+	}
+	m.readers--
+	verifrt.P(0)
+}
+
+func (m *RWMutex) RLocker() Locker { return rlocker{m} }
+
+type rlocker struct{ m *RWMutex }
+
+func (r rlocker) Lock()   { r.m.RLock() }
+func (r rlocker) Unlock() { r.m.RUnlock() }
+
+// Once runs its function once; concurrent callers wait until it has returned.
+type Once struct {
+	done    bool
+	running bool
+}
+
+func (o *Once) Do(f func()) {
+	verifrt.P(0)
+	if o.done {
+		return
+	}
+	for o.running {
+		verifrt.Block()
+	}
+	if o.done {
+		return
+	}
+	o.running = true
+	defer func() {
+		o.done = true
+		o.running = false
+	}()
+	f()
+}
+
+// Pool is a free list without per-P caches (deterministic): Get returns the most recently Put item.
+type Pool struct {
+	New   func() interface{}
+	items []interface{}
+}
+
+func (p *Pool) Get() interface{} {
+	verifrt.P(0)
+	if n := len(p.items); n > 0 {
+		x := p.items[n-1]
+		p.items = p.items[:n-1]
+		return x
+	}
+	if p.New != nil {
+		return p.New()
+	}
+	return nil
+}
+
+func (p *Pool) Put(x interface{}) {
+	verifrt.P(0)
+	if x == nil {
+		return
+	}
+	p.items = append(p.items, x)
+}
+
+// WaitGroup waits for a counter to reach zero.
+type WaitGroup struct{ n int }
+
+func (w *WaitGroup) Add(d int) {
+	verifrt.P(0)
+	w.n += d
+	if w.n < 0 {
+		panic("sync: negative WaitGroup counter")
+	}
+}
+
+func (w *WaitGroup) Done() { w.Add(-1) }
+
+func (w *WaitGroup) Wait() {
+	verifrt.P(0)
+	for w.n > 0 {
+		verifrt.Block()
+	}
+}
+` + ""
+
 type pointInfo struct {
 	ID   int    `json:"id"`
 	File string `json:"file"`
 	Line int    `json:"line"`
 }
+
+var syncShimmed bool
 
 var (
 	points  []pointInfo
@@ -133,9 +318,20 @@ func main() {
 				}
 			}
 		}
+		rewrote := false
 		for _, im := range af.Imports {
 			p := strings.Trim(im.Path.Value, `"`)
-			if p == "sync" || p == "sync/atomic" || p == "time" || p == "math/rand" {
+			if p == "sync" {
+				// routed through the cooperative shim in the instrumented build
+				im.Path.Value = `"github.com/pion/rtcp/verifrt/vsync"`
+				if im.Name == nil {
+					im.Name = ast.NewIdent("sync")
+				}
+				syncShimmed = true
+				rewrote = true
+				continue
+			}
+			if p == "time" || p == "math/rand" {
 				unsupported["import "+p] = true
 			}
 		}
@@ -172,11 +368,13 @@ func main() {
 			}
 			return true
 		})
-		if !hasFunc {
+		if !hasFunc && !rewrote {
 			continue
 		}
-		imp := &ast.GenDecl{Tok: token.IMPORT, Specs: []ast.Spec{&ast.ImportSpec{Path: &ast.BasicLit{Kind: token.STRING, Value: `"github.com/pion/rtcp/verifrt"`}}}}
-		af.Decls = append([]ast.Decl{imp}, af.Decls...)
+		if hasFunc {
+			imp := &ast.GenDecl{Tok: token.IMPORT, Specs: []ast.Spec{&ast.ImportSpec{Path: &ast.BasicLit{Kind: token.STRING, Value: `"github.com/pion/rtcp/verifrt"`}}}}
+			af.Decls = append([]ast.Decl{imp}, af.Decls...)
+		}
 		af.Comments = nil
 		out := filepath.Join(dst, "i_"+filepath.Base(f))
 		w, err := os.Create(out)
@@ -193,6 +391,9 @@ func main() {
 	rt := filepath.Join(dst, "verifrt.go")
 	must(os.WriteFile(rt, []byte(strings.Replace(rtSrc, "NPOINTS", fmt.Sprint(len(points)+1), 1)), 0o644))
 	ovI[filepath.Join(src, "verifrt", "verifrt.go")] = rt
+	vs := filepath.Join(dst, "vsync.go")
+	must(os.WriteFile(vs, []byte(vsyncSrc), 0o644))
+	ovI[filepath.Join(src, "verifrt", "vsync", "vsync.go")] = vs
 	// globals accessor
 	sort.Strings(globals)
 	var sb strings.Builder
@@ -217,7 +418,7 @@ func main() {
 		un = append(un, k)
 	}
 	sort.Strings(un)
-	info := map[string]interface{}{"static_points": len(points), "files": len(ovI) - 2, "globals": globals, "unsupported": un, "points": points}
+	info := map[string]interface{}{"static_points": len(points), "files": len(ovI) - 2, "globals": globals, "unsupported": un, "points": points, "sync_shimmed": syncShimmed}
 	b, _ := json.MarshalIndent(info, "", " ")
 	must(os.WriteFile(filepath.Join(dst, "info.json"), b, 0o644))
 }
